@@ -334,6 +334,7 @@ SPECIAL = [
     ("typing.ClassVar[QAliasInt]", ["classvar"]), ("typing.ClassVar[QAliasDict]", ["classvar"]),
     ("typing.ClassVar[QNewInt]", ["classvar"]), ("typing.Final[QNewInt]", ["final"]), ("typing.ClassVar[QNewDC]", ["classvar"]),
     ("tuple[()]", ["empty-subscript"]), ("typing.Tuple[()]", ["empty-subscript"]),
+    ("typing.ClassVar[tuple[int, ...]]", ["classvar"]), ("typing.ClassVar[tuple[int, str]]", ["classvar"]), ("typing.Final[tuple[int, ...]]", ["final"]),
     ("typing.ClassVar[typing.Optional[int]]", ["classvar"]), ("typing.Final[typing.Optional[int]]", ["final"]),
     ("T", ["typevar"]), ("TBound", ["typevar"]), ("TCons", ["typevar"]),
     ("typing.Callable", ["callable-form"]), ("cabc.Callable", ["callable-form"]),
